@@ -157,6 +157,7 @@ func replay(path string) {
 	type inp struct {
 		Ops    []opRec `json:"ops"`
 		Source string  `json:"source"`
+		Global string  `json:"global"`
 	}
 	var rp struct {
 		Violations []struct {
@@ -181,7 +182,7 @@ func replay(path string) {
 			runSeq(in.Ops, "objops")
 		}
 		if in.Source != "" {
-			runProgram(stream, in.Source, progModules(), nil)
+			runProgram(stream, in.Source, progModules(), []string{in.Global})
 		}
 	}
 	for _, v := range rp.Violations {
